@@ -764,17 +764,52 @@ func (m *mappedFile) newCounter(name string) (v *atomic.Uint64, m1 *mappedFile, 
 		old := head
 		head = m.load32(headOff)
 		for off := head; off != old; {
-			ename, enext, v, ok := m.entryAt(off)
+			ename, enext, ev, ok := m.entryAt(off)
 			if !ok {
-				return nil, nil, errCorrupt
+				// The new element may lie beyond our mapping, if the
+				// process that added it had to extend the file first.
+				// As above, re-map to pick up the extension, and look
+				// again. Our own record is at the same offset in the
+				// new mapping.
+				newM, err := m.remapGrown()
+				if err != nil {
+					return nil, nil, err
+				}
+				if m != orig {
+					m.close()
+				}
+				m = newM
+				next = (*atomic.Uint32)(unsafe.Pointer(&m.mapping.Data[start+12]))
+				v = (*atomic.Uint64)(unsafe.Pointer(&m.mapping.Data[start]))
+				continue
 			}
 			if string(ename) == name {
 				next.Store(^uint32(0)) // mark ours as dead
-				return v, nil, nil
+				return ev, nil, nil
 			}
 			off = enext
 		}
 	}
+}
+
+// remapGrown maps the file again if its recorded allocation limit lies
+// beyond the current mapping, which indicates that another process has
+// extended the file. Otherwise (or if the file is shorter than the limit
+// claims) the out-of-bounds pointer that led here is actual corruption.
+func (m *mappedFile) remapGrown() (*mappedFile, error) {
+	limit := m.load32(m.hdrLen + limitOff)
+	if int64(limit) <= int64(len(m.mapping.Data)) {
+		return nil, errCorrupt
+	}
+	newM, err := openMapped(m.f.Name(), m.meta)
+	if err != nil {
+		return nil, err
+	}
+	if int64(limit) > int64(len(newM.mapping.Data)) {
+		newM.close()
+		return nil, errCorrupt
+	}
+	return newM, nil
 }
 
 func (m *mappedFile) extend(end uint32) (*mappedFile, error) {
